@@ -192,7 +192,16 @@ def judge(res, records, pipe):
                 viol.append(("unexpected-exception", "%s:%s" % (_opname(rec["op"]), rec["out"][1]), "task %d op %d %r" % (ti, rec["i"], rec["out"])))
                 continue
             if lp is None:
-                raise HarnessError("operation %r of t%d never acquired the pipe lock" % (rec["op"], ti))
+                # the operation took no pipe lock at all (never the case in the unchanged code): whatever it did happened
+                # before it returned - linearise it at its return instead of giving up (a harness error would hide what
+                # the sequential model has to say about it)
+                if rec["op"][0] in ("ready", "len"):
+                    # an observer that reads without the lock may see the middle of somebody's critical section: its value
+                    # has no single place in the lock order, and the statement does not ask for one
+                    classes.add("observer-without-pipe-lock(not-judged)")
+                    continue
+                lp = rec["end"] - 0.5
+                classes.add("op-without-pipe-lock(linearised-at-return)")
             done.append((lp, rec))
     done.sort(key=lambda x: x[0])
     buf = b""
